@@ -266,7 +266,9 @@ impl fmt::Display for ValueMatch {
     fn fmt(&self, f: &mut fmt::Formatter<'_>) -> fmt::Result {
         match self {
             ValueMatch::Bool(ref inner) => fmt::Display::fmt(inner, f),
-            ValueMatch::F64(ref inner) => fmt::Display::fmt(inner, f),
+            // `Debug` keeps the decimal point (`2.0`); `Display` would print `2`,
+            // which parses back as an integer matcher rather than a float one.
+            ValueMatch::F64(ref inner) => fmt::Debug::fmt(inner, f),
             ValueMatch::NaN => fmt::Display::fmt(&f64::NAN, f),
             ValueMatch::I64(ref inner) => fmt::Display::fmt(inner, f),
             ValueMatch::U64(ref inner) => fmt::Display::fmt(inner, f),
